@@ -110,6 +110,7 @@ func c02Searches(p *run.Part, tier string) []*seqx.Search {
 		mk(CfgDef3, "+chain20", pdepth), mk(CfgDef3, "+fork12", pdepth), mk(CfgDef3, "+tri4", pdepth), mk(CfgClk3, "", depth-1),
 		mkPolicy(mk, "denyB/default", depth), mkPolicy(mk, "denyP3/default", depth), mk(CfgFww3, "", depth-1),
 		mk2(mk, depth+2), mk(CfgDef3, "+ab-merged", depth-1), mk(CfgDef3, "+abc", depth-1), mk(CfgDef3, "+a-spread", depth-1),
+		mkPartial(mk, depth),
 	}
 }
 
@@ -162,5 +163,14 @@ func runSearches(p *run.Part, ss []*seqx.Search) {
 func mk2(mk func(cfg *seqx.Config, prefix string, d int) *seqx.Search, depth int) *seqx.Search {
 	s := mk(CfgDef2, "", depth)
 	s.Alphabet = Alphabet2()
+	return s
+}
+
+// mkPartial: the two-replica alphabet plus unbounded merges from a partial copy of the other replica (its newest
+// one or two entries, as a length-limited load would hold): logs with holes are reachable states.
+func mkPartial(mk func(cfg *seqx.Config, prefix string, d int) *seqx.Search, depth int) *seqx.Search {
+	s := mk(CfgPart2, "", depth)
+	s.Alphabet = append(Alphabet2(), seqx.Op{K: "joinlast", A: 0, B: 1, N: 1}, seqx.Op{K: "joinlast", A: 0, B: 1, N: 2},
+		seqx.Op{K: "joinlast", A: 1, B: 0, N: 1}, seqx.Op{K: "joinlast", A: 1, B: 0, N: 2})
 	return s
 }
